@@ -31,8 +31,13 @@ func (p *memPeer) since(n int) [][]byte {
 
 // rejectableBatch: the inexpressible batches the builders are known to refuse (Lean: FrameWrite.Rejectable)
 func rejectableBatch(h *hreq) bool {
-	if len(h.payload) > 0 && h.v < 4 {
+	if len(h.payload) > 0 && h.v < 4 || len(h.stmts) > 65535 {
 		return true
+	}
+	for _, s := range h.stmts {
+		if len(s.values) > 65535 {
+			return true
+		}
 	}
 	if h.v > 2 {
 		for _, s := range h.stmts {
